@@ -269,7 +269,8 @@ static uint64_t hash_case(Case const &c) { vr::CaseWriter w; c.encode(w); return
 
 // ------------------------------------------------------------------------------------------------ reference model
 // One cache for the whole installation.  An entry is live while deadline >= now; store always adds the key itself as a trigger.
-struct Entry { std::string val; sset trig; long long deadline = 0; long long version = 0; bool empty_trig = false; };
+struct Entry { std::string val; sset trig; long long deadline = 0; long long version = 0; bool empty_trig = false;
+               bool had_prev = false; std::string prev_val; long long prev_deadline = 0; };      // the entry this store replaced (signature refinement only)
 struct Change { long long version = 0; int by = -1; int how = 0; };   // last mutation that touched a key: how 1 store, 2 rise, 3 clear
 // What a client's L1 may hold for a key: `may` is a superset and `must` a subset of the copy's trigger set (equal whenever the set was
 // observed); existence itself is an over-approximation (a limited L1 may have evicted the copy).
@@ -280,6 +281,8 @@ struct Model {
     long long version = 0;
     void store(int by, std::string const &k, std::string const &v, sset const &t, long long dl) {
         Entry e; e.val = v; e.trig = t; e.empty_trig = t.count("") != 0; e.trig.insert(k); e.deadline = dl; e.version = ++version;
+        auto old = m.find(k);
+        if (old != m.end()) { e.had_prev = true; e.prev_val = old->second.val; e.prev_deadline = old->second.deadline; }
         m[k] = e; last[k] = Change{version, by, 1};
     }
     void rise(int by, std::string const &t) {
@@ -318,9 +321,11 @@ struct Runner {
         return s;
     }
     Outcome fail(std::string const &sig, std::string const &msg) { return bad(sig, msg + " || " + ctx()); }
-    // root cause class of a mismatch on an entry whose last store carried the empty trigger name (the server refuses such a store)
-    Outcome fail_e(Entry const *e, std::string const &sig, std::string const &msg) {
-        if (e && e->empty_trig) return fail("server:store-with-empty-trigger-name-refused", "[" + sig + "] " + msg + " -- the last store of this key carried the empty trigger name");
+    // root cause class of a mismatch: the last store of the key carried the empty trigger name and what is observed is exactly the state
+    // before that store (the server refused it, finding server:store-with-empty-trigger-name-refused)
+    Outcome fail_e(Entry const *e, bool as_if_store_dropped, std::string const &sig, std::string const &msg) {
+        if (e && e->empty_trig && as_if_store_dropped)
+            return fail("server:store-with-empty-trigger-name-refused", "[" + sig + "] " + msg + " -- the last store of this key carried the empty trigger name and had no effect");
         return fail(sig, msg);
     }
 
@@ -365,15 +370,15 @@ struct Runner {
             VR.cls("fetch.miss");
             return ok();
         }
-        if (!r) return fail_e(e, "fetch:miss-on-live-entry", who + " missed although the last completed store is live (deadline " + std::to_string(e->deadline) + ", now " + std::to_string(now) + ")");
+        if (!r) return fail_e(e, !e->had_prev || e->prev_deadline < now, "fetch:miss-on-live-entry", who + " missed although the last completed store is live (deadline " + std::to_string(e->deadline) + ", now " + std::to_string(now) + ")");
         VR.cls("fetch.hit");
         if (mode != 2) {
             if (val != e->val) {
                 bool older = stale;
-                return fail_e(e, older ? "coherence:stale-l1-copy-served" : "wire:value-differs",
+                return fail_e(e, e->had_prev && val == e->prev_val, older ? "coherence:stale-l1-copy-served" : "wire:value-differs",
                             who + " returned " + std::to_string(val.size()) + "B " + vr::show(val, 40) + ", current value is " + std::to_string(e->val.size()) + "B " + vr::show(e->val, 40));
             }
-            if ((long long)to != e->deadline) return fail_e(e, stale ? "coherence:stale-l1-deadline" : "wire:deadline-differs", who + " deadline " + std::to_string((long long)to) + " != " + std::to_string(e->deadline));
+            if ((long long)to != e->deadline) return fail_e(e, e->had_prev && (long long)to == e->prev_deadline, stale ? "coherence:stale-l1-deadline" : "wire:deadline-differs", who + " deadline " + std::to_string((long long)to) + " != " + std::to_string(e->deadline));
             // generation: the stamp the client hands out is the one the holding server has now
             int where = -1; uint64_t sg = 0;
             int n = holders(k, where, sg);
@@ -400,7 +405,7 @@ struct Runner {
                 if (!tolerated) {
                     bool merge = sh != nullptr;
                     for (auto &t : e->trig) if (!tags.count(t)) merge = false;
-                    return fail_e(e, merge ? "l1:refresh-merges-stale-triggers" : "wire:triggers-differ",
+                    return fail(merge ? "l1:refresh-merges-stale-triggers" : "wire:triggers-differ",
                                 who + " trigger set " + show_set(tags) + " (" + std::to_string(tags.size()) + ") != current " + show_set(e->trig) + " (" + std::to_string(e->trig.size()) + ")");
                 }
                 VR.excl("l1-refresh-merged-stale-triggers");
@@ -486,10 +491,8 @@ struct Runner {
                 unsigned k = 99999, t = 99999;
                 cl[ci]->stats(k, t);
                 trace.push_back("c" + std::to_string(ci) + ".stats=" + std::to_string(k) + "/" + std::to_string(t));
-                Entry const *et = nullptr;
-                for (auto &kv : M.m) if (kv.second.empty_trig) et = &kv.second;
                 if (k != M.keys() || t != M.triggers())
-                    return fail_e(et, "stats:differs", "client " + std::to_string(ci) + " stats keys=" + std::to_string(k) + " triggers=" + std::to_string(t) + ", model " + std::to_string(M.keys()) + "/" + std::to_string(M.triggers()));
+                    return fail("stats:differs", "client " + std::to_string(ci) + " stats keys=" + std::to_string(k) + " triggers=" + std::to_string(t) + ", model " + std::to_string(M.keys()) + "/" + std::to_string(M.triggers()));
                 VR.cls("stats.checked");
                 break; }
             case TICK:
@@ -644,9 +647,27 @@ struct RawConn {
     bool send_all(const void *p, size_t n) { const char *c = (const char *)p; while (n) { ssize_t r = ::send(fd, c, n, MSG_NOSIGNAL); if (r <= 0) return false; c += r; n -= (size_t)r; } return true; }
     int recv_all(void *p, size_t n) { char *c = (char *)p; while (n) { ssize_t r = ::recv(fd, c, n, 0); if (r == 0) return 0; if (r < 0) return (errno == EAGAIN || errno == EWOULDBLOCK) ? -2 : -1; c += r; n -= (size_t)r; } return 1; }
 };
+// The service threads run with every signal blocked (tcp_cache_service blocks them around thread creation), so a wild read there kills the
+// process without any handler or sanitizer report.  During the random search the frame sequence about to be sent is therefore saved first and
+// named in the report: the driver turns "died without recording a failure" into a failure that replays from this file.
+static bool g_note_cases = false;
+static std::string g_noted_path;
+static void note_frames_case(FrameCase const &c) {
+    if (!g_note_cases) return;
+    if (g_noted_path.empty()) {
+        std::string unit = vr::env("VERIF_UNIT", "unit");
+        for (auto &ch : unit) if (ch == '/' || ch == ' ') ch = '_';
+        g_noted_path = VR.replay_dir() + "/crash-" + unit + "-frames-s" + std::to_string(vr::seed()) + ".case";
+    }
+    vr::CaseWriter w; w.w("frames").nl(); c.encode(w);
+    vr::write_file(g_noted_path, w.str());
+    VR.current_case = g_noted_path;
+    VR.flush();
+}
 static Outcome p_frames(FrameCase const &c) {
     using namespace cppcms::impl;
     VR.eval();
+    note_frames_case(c);
     g_now = T0; fresh_servers();
     io::reset((unsigned)c.io_density, (unsigned)c.io_eagain, c.io_seed);
     struct Done { ~Done() { io::density = 0; g_case_started = 0; } } done_guard;
@@ -936,7 +957,9 @@ int main(int argc, char **argv) {
         for (int k = 0; k < 2; k++) g_srv[k].srv.reset();
         return o.ok() ? 0 : 1;
     }
+    g_note_cases = !vr::replay_arg(argc, argv);
     int r = vr::rc_main(argc, argv, props);
+    if (!g_noted_path.empty()) { unlink(g_noted_path.c_str()); VR.current_case.clear(); }
     VR.cls("io.short_reads_imposed", io::short_reads.load());
     VR.cls("io.short_writes_imposed", io::short_writes.load());
     VR.cls("io.eagain_injected", io::eagains.load());
